@@ -153,6 +153,17 @@ Theorem target_iff_cm_subtype_exact_names :
 Proof. exact target_iff_SubCM_exact. Qed.
 Print Assumptions target_iff_cm_subtype_exact_names.
 
+(** On the current tree [pages_ok] holds for every collection (C07's generated flag [psl_default_normalised] is [true]
+    since the repair 4ea555f), so the hypothesis disappears. *)
+Theorem target_iff_cm_subtype_current :
+  forall t r F, wf_types t r -> forall (w : tworld kind) (c : comp kind),
+    wf_pair w c -> good_pair' t r F w c -> resfree_pair t F w c ->
+    (resolve_target_sv kind_promote (chk F t) w c = Some ROk <->
+     TargetSub Semver (comp_imports_tree t F c) (mapv (den t F) (c_exports c))
+                      (mapv (den t F) (wtable w)) (mapv (den t F) (tw_exports w))).
+Proof. intros t r F W w c. apply (target_iff_cm_subtype t r F W w c). left. reflexivity. Qed.
+Print Assumptions target_iff_cm_subtype_current.
+
 Theorem fuel_suffices :
   forall t r (w : tworld kind) (c : comp kind),
     (forall n k, In (n, k) (wtable w ++ tw_exports w ++ c_exports c) -> kind_ok t k) ->
